@@ -43,17 +43,17 @@ func (s *c04FakeStream) release() error {
 	s.mu.Unlock()
 	return nil
 }
-func (s *c04FakeStream) Reset() error                                   { return s.release() }
-func (s *c04FakeStream) ResetWithError(network.StreamErrorCode) error   { return s.release() }
-func (s *c04FakeStream) Close() error                                   { return s.release() }
-func (s *c04FakeStream) CloseRead() error                               { return nil }
-func (s *c04FakeStream) CloseWrite() error                              { return nil }
-func (s *c04FakeStream) SetDeadline(time.Time) error                    { return nil }
-func (s *c04FakeStream) SetReadDeadline(time.Time) error                { return nil }
-func (s *c04FakeStream) SetWriteDeadline(time.Time) error               { return nil }
-func (s *c04FakeStream) Read([]byte) (int, error)                       { return 0, errors.New("fake") }
-func (s *c04FakeStream) Write(b []byte) (int, error)                    { return len(b), nil }
-func (s *c04FakeStream) isReleased() bool                               { s.mu.Lock(); defer s.mu.Unlock(); return s.released }
+func (s *c04FakeStream) Reset() error                                 { return s.release() }
+func (s *c04FakeStream) ResetWithError(network.StreamErrorCode) error { return s.release() }
+func (s *c04FakeStream) Close() error                                 { return s.release() }
+func (s *c04FakeStream) CloseRead() error                             { return nil }
+func (s *c04FakeStream) CloseWrite() error                            { return nil }
+func (s *c04FakeStream) SetDeadline(time.Time) error                  { return nil }
+func (s *c04FakeStream) SetReadDeadline(time.Time) error              { return nil }
+func (s *c04FakeStream) SetWriteDeadline(time.Time) error             { return nil }
+func (s *c04FakeStream) Read([]byte) (int, error)                     { return 0, errors.New("fake") }
+func (s *c04FakeStream) Write(b []byte) (int, error)                  { return len(b), nil }
+func (s *c04FakeStream) isReleased() bool                             { s.mu.Lock(); defer s.mu.Unlock(); return s.released }
 
 type c04FakeConn struct {
 	transport.CapableConn
@@ -79,17 +79,17 @@ func (c *c04FakeConn) doClose() error {
 	}
 	return nil
 }
-func (c *c04FakeConn) Close() error                                     { return c.doClose() }
-func (c *c04FakeConn) CloseWithError(network.ConnErrorCode) error       { return c.doClose() }
-func (c *c04FakeConn) IsClosed() bool                                   { c.mu.Lock(); defer c.mu.Unlock(); return c.closed }
-func (c *c04FakeConn) LocalPeer() peer.ID                               { return c.lp }
-func (c *c04FakeConn) RemotePeer() peer.ID                              { return c.rp }
-func (c *c04FakeConn) RemotePublicKey() ic.PubKey                       { return nil }
-func (c *c04FakeConn) LocalMultiaddr() ma.Multiaddr                     { return c.addr }
-func (c *c04FakeConn) RemoteMultiaddr() ma.Multiaddr                    { return c.addr }
-func (c *c04FakeConn) Scope() network.ConnScope                         { return c.scope }
-func (c *c04FakeConn) Transport() transport.Transport                   { return nil }
-func (c *c04FakeConn) ConnState() network.ConnectionState               { return network.ConnectionState{} }
+func (c *c04FakeConn) Close() error                               { return c.doClose() }
+func (c *c04FakeConn) CloseWithError(network.ConnErrorCode) error { return c.doClose() }
+func (c *c04FakeConn) IsClosed() bool                             { c.mu.Lock(); defer c.mu.Unlock(); return c.closed }
+func (c *c04FakeConn) LocalPeer() peer.ID                         { return c.lp }
+func (c *c04FakeConn) RemotePeer() peer.ID                        { return c.rp }
+func (c *c04FakeConn) RemotePublicKey() ic.PubKey                 { return nil }
+func (c *c04FakeConn) LocalMultiaddr() ma.Multiaddr               { return c.addr }
+func (c *c04FakeConn) RemoteMultiaddr() ma.Multiaddr              { return c.addr }
+func (c *c04FakeConn) Scope() network.ConnScope                   { return c.scope }
+func (c *c04FakeConn) Transport() transport.Transport             { return nil }
+func (c *c04FakeConn) ConnState() network.ConnectionState         { return network.ConnectionState{} }
 func (c *c04FakeConn) AcceptStream() (network.MuxedStream, error) {
 	<-c.closeCh
 	return nil, errors.New("closed")
@@ -114,10 +114,11 @@ func (c *c04FakeConn) OpenStream(context.Context) (network.MuxedStream, error) {
 
 // a transport whose Listen takes a while and whose listeners only record Close
 type c04FakeListener struct {
-	addr    ma.Multiaddr
-	mu      sync.Mutex
-	closed  bool
-	closeCh chan struct{}
+	closeDelay time.Duration
+	addr       ma.Multiaddr
+	mu         sync.Mutex
+	closed     bool
+	closeCh    chan struct{}
 }
 
 func (l *c04FakeListener) Accept() (transport.CapableConn, error) {
@@ -125,6 +126,9 @@ func (l *c04FakeListener) Accept() (transport.CapableConn, error) {
 	return nil, transport.ErrListenerClosed
 }
 func (l *c04FakeListener) Close() error {
+	if l.closeDelay > 0 {
+		time.Sleep(l.closeDelay) // closing takes a while: a Close that returns early would see it open
+	}
 	l.mu.Lock()
 	was := l.closed
 	l.closed = true
@@ -140,9 +144,10 @@ func (l *c04FakeListener) isClosed() bool          { l.mu.Lock(); defer l.mu.Unl
 
 type c04FakeTpt struct {
 	transport.Transport
-	mu        sync.Mutex
-	listeners []*c04FakeListener
-	delays    []time.Duration
+	closeDelay time.Duration
+	mu         sync.Mutex
+	listeners  []*c04FakeListener
+	delays     []time.Duration
 }
 
 func (f *c04FakeTpt) CanDial(ma.Multiaddr) bool { return false }
@@ -152,7 +157,7 @@ func (f *c04FakeTpt) Close() error              { return nil }
 func (f *c04FakeTpt) Listen(a ma.Multiaddr) (transport.Listener, error) {
 	f.mu.Lock()
 	i := len(f.listeners)
-	l := &c04FakeListener{addr: a, closeCh: make(chan struct{})}
+	l := &c04FakeListener{addr: a, closeCh: make(chan struct{}), closeDelay: f.closeDelay}
 	f.listeners = append(f.listeners, l)
 	var d time.Duration
 	if i < len(f.delays) {
@@ -191,7 +196,7 @@ type c04ConnObs struct {
 	streams []c04StreamObs
 }
 
-func c04CloseCase(t *testing.T, out *verifh.Out, r *verifh.Rand) {
+func c04CloseCase(t *testing.T, out *verifh.Out, r *verifh.Rand) (hung bool) {
 	rm, err := rcmgr.NewResourceManager(rcmgr.NewFixedLimiter(rcmgr.InfiniteLimits))
 	if err != nil {
 		t.Fatal(err)
@@ -210,6 +215,9 @@ func c04CloseCase(t *testing.T, out *verifh.Out, r *verifh.Rand) {
 		t.Fatal(err)
 	}
 	ftpt := &c04FakeTpt{}
+	if r.Chance(1, 2) {
+		ftpt.closeDelay = time.Duration(r.Intn(3000)) * time.Microsecond
+	}
 	if err := sw.AddTransport(ftpt); err != nil {
 		t.Fatal(err)
 	}
@@ -296,16 +304,72 @@ func c04CloseCase(t *testing.T, out *verifh.Out, r *verifh.Rand) {
 			}
 		}(i)
 	}
-	wg.Add(1)
+	// 1-3 concurrent callers of Swarm.Close; each notes, the moment its Close returns, which
+	// fake connections and listeners are still open
+	type c04Snap struct {
+		returned bool
+		conns    []int
+		lsts     []*c04FakeListener
+	}
+	ncallers := 1 + r.Intn(3)
+	snaps := make([]c04Snap, ncallers)
+	for j := 0; j < ncallers; j++ {
+		kr := r.Fork()
+		wg.Add(1)
+		go func(j int) {
+			defer wg.Done()
+			for k := 0; k < closeAt; k++ {
+				c04Yield(kr)
+			}
+			if j > 0 {
+				c04Yield(kr)
+			}
+			sw.Close()
+			var sn c04Snap
+			for i := range obs {
+				if !obs[i].fc.IsClosed() {
+					sn.conns = append(sn.conns, i)
+				}
+			}
+			ftpt.mu.Lock()
+			for _, l := range ftpt.listeners {
+				if !l.isClosed() {
+					sn.lsts = append(sn.lsts, l)
+				}
+			}
+			ftpt.mu.Unlock()
+			sn.returned = true
+			snaps[j] = sn
+		}(j)
+	}
+	// Swarm.Close must return (it waits for s.refs): a Close that never returns is a
+	// goroutine that keeps running and leaves what it should have closed open.  The
+	// bound only detects a hang; nothing else depends on it.
+	finished := make(chan struct{})
 	go func() {
-		defer wg.Done()
-		for k := 0; k < closeAt; k++ {
-			c04Yield(r)
-		}
+		wg.Wait()
 		sw.Close()
+		close(finished)
 	}()
-	wg.Wait()
-	sw.Close()
+	select {
+	case <-finished:
+	case <-time.After(45 * time.Second):
+		hung = true
+		out.Cover("close.SWARM_CLOSE_DID_NOT_RETURN")
+		defer func() {
+			// let the stuck goroutines go so that the next case starts from rest
+			ftpt.mu.Lock()
+			ls := append([]*c04FakeListener{}, ftpt.listeners...)
+			ftpt.mu.Unlock()
+			for _, l := range ls {
+				l.Close()
+			}
+			select {
+			case <-finished:
+			case <-time.After(10 * time.Second):
+			}
+		}()
+	}
 
 	line := []int64{5, int64(nconn)}
 	for i := range obs {
@@ -406,6 +470,37 @@ func c04CloseCase(t *testing.T, out *verifh.Out, r *verifh.Rand) {
 	line = append(line, left, lleft, uc, us)
 	out.Cover("close.cases")
 	out.Case(line)
+	// kind 9: what every caller of Close found when its call returned.  Something still open
+	// then is only acceptable if its add was refused (the adder closes it itself).
+	if !hung {
+		once := []int64{9, 0}
+		for j := range snaps {
+			if !snaps[j].returned {
+				continue
+			}
+			clean := int64(1)
+			for _, i := range snaps[j].conns {
+				if obs[i].addOK == 1 {
+					clean = 0
+				}
+			}
+			for _, l := range snaps[j].lsts {
+				for i := 0; i < nlisten; i++ {
+					if l.addr.String() == fmt.Sprintf("/ip4/127.0.0.1/tcp/%d", 2000+i) && listenOK[i] == 1 {
+						clean = 0
+					}
+				}
+			}
+			once[1]++
+			once = append(once, clean)
+			if len(snaps[j].conns)+len(snaps[j].lsts) > 0 {
+				out.Cover("once.refused_item_still_open_at_close_return")
+			}
+		}
+		out.Case(once)
+		out.Cover(fmt.Sprintf("once.callers_%d", ncallers))
+	}
+	return hung
 }
 
 func TestVerifC04Close(t *testing.T) {
@@ -419,7 +514,14 @@ func TestVerifC04Close(t *testing.T) {
 		n = 6000
 	}
 	r := verifh.NewRand(verifh.Seed() + 404)
+	hangs := 0
 	for i := 0; i < n; i++ {
-		c04CloseCase(t, out, r.Fork())
+		if c04CloseCase(t, out, r.Fork()) {
+			hangs++
+			if hangs >= 2 {
+				out.Comment("Swarm.Close did not return twice: remaining cases skipped")
+				break
+			}
+		}
 	}
 }
